@@ -1,9 +1,15 @@
 """C08 — a compilation is independent of earlier traces and failures in the process (K3)."""
 import copy
 import json
+import os
+import shutil
+import subprocess
+import sys
+import tempfile
+from concurrent.futures import ThreadPoolExecutor
 from .. import core
 from ..corr import k10, k12, mir as cm
-from ..gen import programs, rng as R
+from ..gen import programs, render, rng as R
 from ..real import interp
 from ..real.env import reset_globals
 from ..oracle.graph import body
@@ -13,7 +19,7 @@ MODULE = "NadaVerif.Props.C08"
 TRANSLATORS = None
 THEOREMS = [f"NadaVerif.C08.{n}" for n in (
     "compile_mono", "lookup_append", "fuel_append", "earlier_history_irrelevant", "later_traces_irrelevant",
-    "only_reachable_emitted")]
+    "only_reachable_emitted")] + ["NadaVerif.C08.later_program_nothing_missing"]
 
 REG_KEYS = ("a", "b", "c", "r", "o", "f", "init", "party", "ret")
 
@@ -215,6 +221,88 @@ def entry_point_histories(res, tier):
     return stats
 
 
+def fresh_process(via, paths, cwd):
+    """the programs compiled in order in a new interpreter (no state of this process, whatever it is, is involved)"""
+    env = dict(os.environ, PYTHONPATH=core.REPO + os.pathsep + os.path.join(core.VERIF, "harness"), PYTHONDONTWRITEBYTECODE="1")
+    env.pop("NADA_TIMER", None)
+    p = subprocess.run([sys.executable, "-m", "nv.real.fresh_hist", via] + paths, cwd=cwd, env=env, capture_output=True, text=True, timeout=300)
+    try:
+        return json.loads(p.stdout)
+    except ValueError:
+        return [{"err": "harness", "msg": (p.stderr or p.stdout)[-300:]}] * len(paths)
+
+
+ABORTING = "from nada_dsl import *\n\n\n# an earlier program that stops in the middle of its trace\ndef nada_main():\n    p = Party(name='Early')\n" \
+           "    a = SecretInteger(Input(name='early', party=p))\n\n\n    b = a * a\n    return [Output(b + SecretBoolean(Input(name='x', party=p)), 'o', p)]\n"
+
+
+def fresh_process_histories(res, tier):
+    """The reference run is a *new interpreter*: program B compiled alone there, against B compiled after earlier
+    programs in another new interpreter.  The earlier programs live in other directories under the same file name
+    (every project's `main.py`), have other line layouts, and one of them stops in the middle of its trace.  What the
+    MIR of B says — tables up to id / literal renaming, and every source reference resolved to file, line, offset,
+    length — must not depend on them."""
+    n = 6 if tier == "quick" else 60
+    tmp = tempfile.mkdtemp(prefix="nvc08f")
+    stats = {"histories": 0, "programs_compared": 0}
+    try:
+        srcs = []
+        idx = 0
+        while len(srcs) < n + 2 and idx < 8 * n:
+            m, _ = programs.generate("C08fp", idx, max_cmds=16)
+            idx += 1
+            src = render.render(m.events, m.results)
+            if src is not None and src not in srcs:
+                srcs.append(src)
+        reset_globals()
+        jobs = []
+        for i in range(max(0, len(srcs) - 2)):
+            earlier = [srcs[i + 1], ABORTING if i % 2 == 0 else srcs[i + 2]]
+            later = ("\n" * (i % 3)) + srcs[i]           # the same text at other line numbers than the earlier files
+            d = os.path.join(tmp, f"h{i}")
+            paths = []
+            for k, text in enumerate(earlier + [later]):
+                os.makedirs(os.path.join(d, f"proj{k}"), exist_ok=True)
+                path = os.path.join(d, f"proj{k}", "main.py")
+                with open(path, "w", encoding="utf-8") as f:
+                    f.write(text)
+                paths.append(path)
+            jobs.append((i, "string" if i % 3 == 2 else "script", paths, d, later, earlier))
+
+        def one(job):
+            i, via, paths, d, later, earlier = job
+            return job, fresh_process(via, paths, d)[-1], fresh_process(via, paths[-1:], d)[-1]
+        with ThreadPoolExecutor(max_workers=8) as ex:
+            for job, a, b in ex.map(one, jobs):
+                i, via, paths, d, later, earlier = job
+                stats["histories"] += 1
+                stats["programs_compared"] += 1
+                text = None
+                if "harness" in (a.get("err"), b.get("err")):
+                    raise RuntimeError(f"fresh process failed: {a.get('msg')} {b.get('msg')}")
+                if ("mir" in a) != ("mir" in b):
+                    text = f"after the history: {a.get('msg', 'compiled')}; alone: {b.get('msg', 'compiled')}"
+                elif "mir" in a:
+                    dd = cm.first_diff(normalize(cm.canon_mir(a["mir"])), normalize(cm.canon_mir(b["mir"])))
+                    if dd:
+                        text = f"MIR after the history differs from the MIR of the same file compiled alone in a new interpreter: {dd}"
+                    else:
+                        ra, rb = resolved_refs(a["mir"]), resolved_refs(b["mir"])
+                        bad = next(((x, y) for x, y in zip(ra, rb) if x != y), None)
+                        if bad is not None:
+                            text = f"source reference of {bad[0][:-1]} after the history designates {bad[0][-1]}, compiled alone it designates {bad[1][-1]}"
+                        elif via == "script" and a["mir"].get("source_files") != b["mir"].get("source_files"):
+                            text = "the embedded source files differ"
+                elif a.get("err") != b.get("err"):
+                    text = f"after the history: {a.get('msg')}; alone: {b.get('msg')}"
+                if text:
+                    res.violation({"property": "C08", "kind": "fresh-process-history", "via": via, "later": later, "earlier": earlier, "text": text},
+                                  f"fresh-process history {i} through compile_{via}: {text}"[:400])
+    finally:
+        shutil.rmtree(tmp, ignore_errors=True)
+    return stats
+
+
 def names_of(mir):
     out = set()
     out.update(("input", i["name"]) for i in mir["inputs"])
@@ -269,6 +357,7 @@ def run(res, tier):
             break
     ep = entry_point_histories(res, tier)
     reset_globals()
+    fp = fresh_process_histories(res, tier)
     for idx, d, combined in diffs[:5]:
         res.broken.append({"decl": "K3 correspondence (history run: model vs real implementation)",
                            "msg": json.dumps(d, default=str)[:500], "history": combined})
@@ -281,6 +370,7 @@ def run(res, tier):
                 "non-trivial = distinct normalised MIRs of B with >= 3 operations",
         "correspondence_disagreements": len(diffs),
         "entry_point_histories": ep,
+        "fresh_process_histories": fp,
         "samples": samples,
     })
     res.assumptions += [
@@ -291,6 +381,24 @@ def run(res, tier):
 
 
 def replay(obj):
+    if obj.get("kind") == "fresh-process-history":
+        tmp = tempfile.mkdtemp(prefix="nvc08f")
+        try:
+            paths = []
+            for k, text in enumerate(obj["earlier"] + [obj["later"]]):
+                os.makedirs(os.path.join(tmp, f"proj{k}"), exist_ok=True)
+                paths.append(os.path.join(tmp, f"proj{k}", "main.py"))
+                with open(paths[-1], "w", encoding="utf-8") as f:
+                    f.write(text)
+            a, b = fresh_process(obj["via"], paths, tmp)[-1], fresh_process(obj["via"], paths[-1:], tmp)[-1]
+        finally:
+            shutil.rmtree(tmp, ignore_errors=True)
+        bad = ("mir" in a) != ("mir" in b) or ("mir" in a and cm.first_diff(normalize(cm.canon_mir(a["mir"])), normalize(cm.canon_mir(b["mir"])))) \
+            or ("mir" in a and resolved_refs(a["mir"]) != resolved_refs(b["mir"])) or ("mir" not in a and a.get("err") != b.get("err"))
+        print("differs" if bad else "same")
+        if bad:
+            print("VIOLATION property=C08 replay=(replayed)")
+        return 1 if bad else 0
     if obj.get("kind") == "entry-point-history":
         reset_globals()
         m = interp.run_events(copy.deepcopy(obj["events"]))
